@@ -96,6 +96,8 @@ def load_known():
 
 
 def witness(prop, clause, tier):
+    if os.environ.get('VERIF_NO_WITNESS'):
+        return dict(status='skipped')
     """Try to exhibit a concrete failing input on the real code for this property."""
     exe = os.path.join(VERIF, 'build', 'witness-target', 'release', 'wit')
     try:
@@ -180,9 +182,48 @@ def inventory():
     return 0
 
 
+_UNIT_CACHE = {}
+_KANI_CACHE = {}
+_CANARY_CACHE = {}
+
+
+def run_unit_cached(u, repo, rlimit, threads):
+    key = (u, repo)
+    if key not in _UNIT_CACHE:
+        _UNIT_CACHE[key] = unitrun.run_unit(u, repo, rlimit, threads)
+    return _UNIT_CACHE[key]
+
+
+def run_kani_cached(names, repo, tier):
+    from vf import kani
+    names = kani.expand(names)
+    if tier == 'quick':
+        names = [n for n in names if not kani.HARNESSES[n][4]]
+    missing = [n for n in names if (n, repo, tier) not in _KANI_CACHE]
+    if missing:
+        for h in kani.run_harnesses(missing, repo, tier):
+            _KANI_CACHE[(h['name'], repo, tier)] = h
+    return [_KANI_CACHE[(n, repo, tier)] for n in names if (n, repo, tier) in _KANI_CACHE]
+
+
 def main():
     if len(sys.argv) > 1 and sys.argv[1] == '--inventory':
         return inventory()
+    if len(sys.argv) > 1 and sys.argv[1] == 'ALL':
+        # every claimed property in one process: each unit / harness runs once and is shared
+        rest = sys.argv[2:]
+        from vf import kani
+        repo = rest[rest.index('--repo') + 1] if '--repo' in rest else REPO
+        tier = rest[rest.index('--tier') + 1] if '--tier' in rest else os.environ.get('VERIF_TIER', 'quick')
+        allk = sorted(set(k for pc in config.PROPS.values() for k in pc.get('kani', [])))
+        if '--no-kani' not in rest:
+            run_kani_cached(allk, repo, tier)
+        worst = 0
+        for p in sorted(config.PROPS):
+            sys.argv = [sys.argv[0], p] + rest
+            rc = main()
+            worst = max(worst, rc) if rc != 2 or worst == 0 else worst
+        return worst
     ap = argparse.ArgumentParser()
     ap.add_argument('prop')
     ap.add_argument('--tier', default=os.environ.get('VERIF_TIER', 'quick'))
@@ -190,7 +231,10 @@ def main():
     ap.add_argument('--repo', default=REPO)
     ap.add_argument('--no-canary', action='store_true')
     ap.add_argument('--no-kani', action='store_true')
+    ap.add_argument('--no-witness', action='store_true')
     args = ap.parse_args()
+    if args.no_witness:
+        os.environ['VERIF_NO_WITNESS'] = '1'
     prop = args.prop
     tier = args.tier if args.tier in ('quick', 'thorough') else 'quick'
     seed = int(os.environ.get('VERIF_SEED', '0') or 0)
@@ -208,16 +252,16 @@ def main():
 
     results = {}
     with cf.ThreadPoolExecutor(max_workers=4) as ex:
-        futs = {ex.submit(unitrun.run_unit, u, unitrun_repo, config.UNIT_RLIMIT.get(u, 40),
+        futs = {ex.submit(run_unit_cached, u, unitrun_repo, config.UNIT_RLIMIT.get(u, 40),
                           max(2, 16 // max(1, len(pc['units'])))): u for u in pc['units']}
         kani_fut = None
         if pc.get('kani') and not args.no_kani:
-            from vf import kani
-            kani_fut = ex.submit(kani.run_harnesses, pc['kani'], repo, tier)
+            kani_fut = ex.submit(run_kani_cached, pc['kani'], repo, tier)
         for f in cf.as_completed(futs):
             results[futs[f]] = f.result()
         kani_res = kani_fut.result() if kani_fut else None
 
+    shaky = set()        # (unit, function) whose proof hints no longer fit the code (anchor gone / hint does not compile)
     undecided = []
     violations = []      # dict(clause, fn, tags, message, rendered, unit, site)
     other_failures = []  # failures not carrying this property
@@ -272,6 +316,11 @@ def main():
                 other_failures.append(f)
         for d in r.dropped_hints:
             dropped.append(dict(d, unit=u))
+            if d['message'].startswith('hint does not compile'):
+                shaky.add((u, d.get('fn')))
+        for cid in (getattr(r, 'lost_anchors', None) or []):
+            fn_of = r.g.clauses[cid]['fn'] if cid in r.g.clauses else cid.split('.rewrite.')[0].rsplit('.', 1)[0] if '.rewrite.' not in cid else cid.split('.rewrite.')[0]
+            shaky.add((u, fn_of))
         if getattr(r, 'lost_anchors', None):
             # a hint whose anchor text disappeared: harmless if everything still verifies
             if r.failures or r.undecided:
@@ -303,7 +352,11 @@ def main():
     canaries = []
     if not args.no_canary and not undecided:
         with cf.ThreadPoolExecutor(max_workers=4) as ex:
-            for c in ex.map(lambda u: canary_check(u, seed, tier, repo), pc['units']):
+            def canary_cached(u):
+                if (u, repo, tier, seed) not in _CANARY_CACHE:
+                    _CANARY_CACHE[(u, repo, tier, seed)] = canary_check(u, seed, tier, repo)
+                return _CANARY_CACHE[(u, repo, tier, seed)]
+            for c in ex.map(canary_cached, pc['units']):
                 canaries.append(c)
                 if not c['ok']:
                     undecided.append('%s: canary assert(false) NOT reported in %s -- verification is vacuous there' % (c['unit'], c.get('missed')))
@@ -331,6 +384,19 @@ def main():
                 else:
                     undecided.append('kani %s: %s' % (h['name'], h['status']))
 
+    # An obligation that fails in a function whose proof hints no longer fit the code (renamed locals,
+    # restructured statements) proves nothing: the proof script, not the property, may be what broke.
+    ambiguous = [v for v in violations if (v.get('unit'), v.get('fn')) in shaky]
+    violations = [v for v in violations if (v.get('unit'), v.get('fn')) not in shaky]
+    amb_wit = None
+    if ambiguous and not violations:
+        amb_wit = witness(prop, ambiguous[0]['clause'], tier) if prop in WITNESS_FALLBACK + ('C06',) else None
+        if amb_wit and amb_wit.get('status') == 'found':
+            violations = ambiguous      # confirmed on the real code by a concrete failing input
+        else:
+            undecided.append('obligations %s fail, but the proof hints of %s no longer fit the code (lost anchors / renamed locals) and the bounded witness search found no failing input: undecided, not an alarm'
+                             % (sorted(set(v['clause'] for v in ambiguous)), sorted(set(str(v.get('fn')) for v in ambiguous))))
+
     known, fixed = load_known()
     out_lines = []
     real = []
@@ -351,7 +417,7 @@ def main():
     replay_paths = []
     if real:
         rc = 1
-        wit = witness(prop, real[0]['clause'], tier)
+        wit = amb_wit if amb_wit is not None else witness(prop, real[0]['clause'], tier)
         for v in real:
             name = re.sub(r'[^\w.\-]', '_', '%s-%s' % (prop, v['clause']))
             path = os.path.join(REPLAYS, name + '.json')
